@@ -66,6 +66,13 @@ class Kw:
 
 
 @dataclass(frozen=True)
+class KwD:
+    """`**kwargs` that captured explicit keywords: an executor-level mapping (+ an opaque rest)."""
+    items: Tuple[Tuple[str, Any], ...]
+    rest: Any = None
+
+
+@dataclass(frozen=True)
 class Lam:
     node: Any
     env: Any
